@@ -105,6 +105,12 @@ def cases(ctx):
                 if ctx.mine(k) and (not ctx.quick or ver in ([0, 0], [0, 9]) or k % 3 == 0):
                     yield {"kind": "single", "flavour": flav, "version": ver, "app_id": rng.randrange(65536),
                            "instrs": [[m, codec.rand_values(rng, isa.TABLE[flav][m][1])]]}
+                # ... and with every integer operand zero (only the registers vary): the bytes two instructions are most likely to share
+                k += 1
+                if ctx.mine(k) and ver in ([0, 0], [0, 9], [0, 11]):
+                    vals = codec.rand_values(rng, isa.TABLE[flav][m][1])
+                    vals = [0 if isinstance(v, int) else v for v in vals]
+                    yield {"kind": "single", "flavour": flav, "version": ver, "app_id": 0, "instrs": [[m, vals]]}
     nseq = ctx.n(300, 400000)
     for _ in range(nseq):
         flav = rng.choice(["vanilla", "nv", "reids"])
